@@ -670,7 +670,8 @@ fn vsign_accepts(block: &[u8], w: u32, h: u32) -> Value {
             None => json!({"stored": 0, "w": 0, "h": 0, "typ": typ}),
         }
     };
-    let full = Page::new(PageId(1), w, h).as_bytes().to_vec();
+    // (the page is numbered like the block's family byte, 4 or 8: its first chunk then starts like a configuration block)
+    let full = Page::new(PageId(block[0]), w, h).as_bytes().to_vec();
     // the same after the sign has first been offered a doctored block of the same family / id (other size fields), in
     // the same transfer and on a retry after a failed one: what counts is the block that was sent last
     let run_after_doctored = |retry: bool| -> Value {
@@ -802,6 +803,47 @@ pub fn record_c19(a: &Args) -> usize {
                         }
                     }
                     out.emit(json!({"e": "decode", "bytes": j::bytes(&b), "r": decode_type(&b)}));
+                }
+            }
+            // the same geometry written differently: a Max3000 width split differently over the four panels, a Horizon width
+            // factored differently into A1*B1 + A2*B2 -- family and id unchanged, so still the same supported type
+            if block[0] == 0x04 {
+                for from in 0..4usize {
+                    for to in 0..4usize {
+                        for k in 1..=14u8 {
+                            if from != to && block[5 + from] >= k && block[5 + to] <= 255 - k && (thorough || (from + to + k as usize) % 2 == 0) {
+                                let mut b = block.to_vec();
+                                b[5 + from] -= k;
+                                b[5 + to] += k;
+                                out.emit(json!({"e": "decode", "bytes": j::bytes(&b), "r": decode_type(&b)}));
+                            }
+                        }
+                    }
+                }
+            } else if block[0] == 0x08 {
+                let wd = block[7] as u32;
+                for a1 in 0..=8u32 {
+                    for a2 in 0..=8u32 {
+                        for b1 in [0u32, 1, 2, 4, 8, 10, 16, 20, 24, 40, 48, 80, wd] {
+                            if a1 * b1 > wd || (a2 == 0 && a1 * b1 != wd) {
+                                continue;
+                            }
+                            let rest = wd - a1 * b1;
+                            if a2 > 0 && rest % a2 != 0 {
+                                continue;
+                            }
+                            let b2 = if a2 > 0 { rest / a2 } else { 0 };
+                            if b2 > 255 {
+                                continue;
+                            }
+                            let mut b = block.to_vec();
+                            b[8] = a1 as u8;
+                            b[9] = a2 as u8;
+                            b[10] = b1 as u8;
+                            b[11] = b2 as u8;
+                            out.emit(json!({"e": "decode", "bytes": j::bytes(&b), "r": decode_type(&b)}));
+                        }
+                    }
                 }
             }
             // a genuine block followed by padding of every length 1..=48 (and whole further rows) in the fillers a wire or a
